@@ -244,13 +244,16 @@ def main():
         p = subprocess.run(cmd, cwd=HARNESS, env=runenv)
         sys.exit(p.returncode)
 
-    logdir = VERIF / "logs" / pid / tier
+    # VERIF_OUT redirects logs, replays and evidence (used when evaluating seeded changes, so that the
+    # committed evidence of the unchanged tree is not overwritten)
+    OUT = Path(os.environ.get("VERIF_OUT", str(VERIF)))
+    logdir = OUT / "logs" / pid / tier
     if logdir.exists():
         for f in logdir.iterdir():
             f.unlink()
     logdir.mkdir(parents=True, exist_ok=True)
-    (VERIF / "replay" / pid).mkdir(parents=True, exist_ok=True)
-    (VERIF / "evidence").mkdir(exist_ok=True)
+    (OUT / "replay" / pid).mkdir(parents=True, exist_ok=True)
+    (OUT / "evidence").mkdir(parents=True, exist_ok=True)
 
     results = []
     for stage in stages_of(cfg):
@@ -326,7 +329,7 @@ def main():
 
     replay_paths = []
     for v in new_violations[:50]:
-        rp = VERIF / "replay" / pid / f"{tier}-seed{seed}-{v.get('worker','w')}-{v.get('variant','chk').replace('+','_')}-case{v['case']}.json"
+        rp = OUT / "replay" / pid / f"{tier}-seed{seed}-{v.get('worker','w')}-{v.get('variant','chk').replace('+','_')}-case{v['case']}.json"
         rp.write_text(json.dumps({"property": pid, "seed": seed, "tier": tier, "case": v["case"], "sig": v["sig"], "worker": v.get("worker"),
                                   "detail": v["detail"], "input_hex": v.get("input_hex"), "variant": v.get("variant", "chk"),
                                   "cmd": f"./check {pid} --replay {rp}"}, indent=1))
@@ -357,7 +360,7 @@ def main():
         "wall_s": round(wall, 2),
         "violations": len(new_violations),
     }
-    (VERIF / "evidence" / f"{pid}.json").write_text(json.dumps(evidence, indent=1))
+    (OUT / "evidence" / f"{pid}.json").write_text(json.dumps(evidence, indent=1))
 
     for sig, vs in known_hits.items():
         print(f"KNOWN-FINDING: property={pid} {known_sigs[sig]['what']} (signature {sig}, {len(vs)} hits)")
